@@ -227,7 +227,8 @@ def exec_c06(cfg, devs):
     p = Partial()
     dev = _mk_device()
     menu = ('once', 'dup', 'delay1.05', 'drop')
-    ex = cfh.Exec(devs, dev, time_limit=60.0, reply_menu=menu, needs_resending=True, send_fault=bool(cfg.get('send_fault')))
+    ex = cfh.Exec(devs, dev, time_limit=60.0, reply_menu=menu, needs_resending=True, send_fault=bool(cfg.get('send_fault')),
+                  policy=cfg.get('policy'))
     # only memory replies are faulted (the connect handshake is C02/C03's business)
     ex.env.reply_filter = lambda h, payload: None if ((h >> 4) & 15) == 4 else ('once',)
     ops = cfg['ops']
@@ -344,6 +345,7 @@ def exec_c06(cfg, devs):
             t = s.spawn(None, wr, name='probe-writer')
             ex.wait_for(lambda: any(e[0].startswith('write') and e[1] == MEM_IDS[mi] and e[2] == 0x3000 for e in obs.events),
                         4.0, 'probe.write')
+            s.sleep(0.01, 'probe.settle')       # let the writer thread return from write() before it is judged
             probes.append((a1, done.get('acc', 'BLOCKED'),
                            [e[0] for e in obs.events if e[1] == MEM_IDS[mi] and e[2] in (0x2000, 0x3000)]))
         info['probes'] = probes
@@ -541,6 +543,9 @@ def configs(quick):
                 (('w', 0, 0, 26), ('r', 0, 0, 26)), (('w', 0, 0, 26), ('wf', 0, 40, 26))):
         name = 'user2:' + ','.join('%s%d@%d+%d' % o for o in ops)
         out.append({'name': name, 'ops': ops, 'fault': False, 'second_user': 1.3})
+    for pol in ('handoff', 'eager'):
+        for ops in ((('w', 0, 0, 26), ('w', 0, 40, 26)), (('r', 0, 0, 45),), (('w', 0, 0, 45), ('r', 0, 0, 21))):
+            out.append({'name': pol + ':' + ','.join('%s%d@%d+%d' % o for o in ops), 'ops': ops, 'fault': True, 'policy': pol})
     for ops in ((('w', 0, 0, 26),), (('r', 0, 0, 21),), (('w', 0, 0, 26), ('w', 0, 40, 1))):
         name = 'sendfault:' + ','.join('%s%d@%d+%d' % o for o in ops)
         out.append({'name': name, 'ops': ops, 'fault': False, 'send_fault': True})
